@@ -43,9 +43,16 @@ def triaxys(rng, d, directional=True, nfiles=1):
     th = np.arange(0, 360 + ddir, ddir, dtype=float)
     t0 = _t0(rng)
     paths, times, specs = [], [], []
+    fgrid = f
+    vary_f0 = nfiles > 1 and rng.random() < 0.35
     for k in range(nfiles):
         t = t0 + np.timedelta64(k * 1800, "s")
         ts = str(t.astype("datetime64[m]")).replace("T", " ")
+        if vary_f0 and k > 0:
+            # a later file whose band starts elsewhere (same number of bins and spacing): the reader puts every record on
+            # the first file's frequencies by linear interpolation, zero outside the file's own band
+            f0 = float(rng.choice([0.0, 0.03, 0.05, 0.04]))
+            f = f0 + df * np.arange(nf)
         if directional:
             E = lobes(rng, f, th)
             E[:, -1] = E[:, 0]
@@ -73,8 +80,11 @@ def triaxys(rng, d, directional=True, nfiles=1):
             fh.write("\n".join(lines) + "\n")
         paths.append(p)
         times.append(t.astype("datetime64[m]"))
+        if f is not fgrid and not np.array_equal(f, fgrid):
+            v2 = np.asarray(val, dtype="float64")
+            val = np.array([np.interp(fgrid, f, col, left=0.0, right=0.0) for col in v2.reshape(nf, -1).T]).T.reshape((nf,) + v2.shape[1:])
         specs.append(val)
-    return paths, {"time": np.array(times), "freq": f, "dir": th if directional else None, "E": np.array(specs)}
+    return paths, {"time": np.array(times), "freq": fgrid, "dir": th if directional else None, "E": np.array(specs), "vary_f0": bool(vary_f0)}
 
 
 # --------------------------------------------------------------------------------------- NDBC ASCII
